@@ -37,19 +37,28 @@ def rowIds (lines : List Nat) (hls : List Highlight) : List RowId :=
   lines.flatMap fun l =>
     RowId.src l :: ((List.range hls.length).filter (fun k => (hls[k]?.map (hasMark · l)).getD false)).map (RowId.mark l)
 
-/-- the riser character of multi-line highlight `k` on row number `i` -/
+def RowId.line : RowId → Nat
+  | .src l => l
+  | .mark l _ => l
+
+/-- the riser character of multi-line highlight `k` on row number `i`: `/` on the start row of a
+highlight starting at column 0, blank on the start mark row of one starting mid-line, `|` on every
+row after the start row down to and including the end mark row, blank elsewhere.  When the start
+(end) line is not among the displayed lines, "after the start" ("not past the end") is decided by
+the line number of the row. -/
 def riserChar (ids : List RowId) (h : Highlight) (k : Nat) (i : Nat) : String :=
   let startRow := if h.span.s.col == 0 then RowId.src h.span.s.line else RowId.mark h.span.s.line k
   let endRow := RowId.mark h.span.e.line k
   let si := ids.findIdx? (· == startRow)
   let ei := ids.findIdx? (· == endRow)
+  let rowLine := (ids[i]?.map RowId.line).getD 0
   let afterStart := match si with
     | some s => decide (s < i)
-    | none => true
+    | none => decide (h.span.s.line < rowLine)
   let atStart := si == some i
   let notPastEnd := match ei with
     | some e => decide (i ≤ e)
-    | none => true
+    | none => decide (rowLine < h.span.e.line)
   if atStart then (if h.span.s.col == 0 then "/" else " ")
   else if afterStart && notPastEnd then "|"
   else " "
